@@ -80,7 +80,7 @@ statement; distinct = distinct hash of (kind, program, sources, environment or s
             "probe.c.multi_worker_runs",
             "probe.e.old_text_reloaded",
         ],
-        fault_kinds: vec!["hash_keys", "layout", "heap_reuse", "trace_log", "clock_fast_forward", "sched", "cancel_at_k", "cancel_other", "exec_error"],
+        fault_kinds: vec!["hash_keys", "layout", "heap_reuse", "trace_log", "clock_fast_forward", "sched", "lock_wait", "cancel_at_k", "cancel_other", "exec_error"],
     }
 }
 
@@ -93,6 +93,8 @@ static SINK: SinkLogger = SinkLogger;
 static LOGGED: std::sync::atomic::AtomicU64 = std::sync::atomic::AtomicU64::new(0);
 /// workers found blocked on a lock that a parked worker held (see sched.rs)
 static STALLS: std::sync::atomic::AtomicU64 = std::sync::atomic::AtomicU64::new(0);
+/// waits on a contended library lock that the scheduler served (simulated futex, sched.rs)
+static LOCK_WAITS: std::sync::atomic::AtomicU64 = std::sync::atomic::AtomicU64::new(0);
 /// clock readings served by the fast-forward clock
 static CLOCK_READS: std::sync::atomic::AtomicU64 = std::sync::atomic::AtomicU64::new(0);
 
@@ -938,6 +940,7 @@ fn check_c_inner(inp: &Inputs, plan: &Plan, env: &Env) -> Result<(CStats, Option
             return Err("FILE-MUTATED".into());
         }
         STALLS.fetch_add(sched.stalls(), std::sync::atomic::Ordering::Relaxed);
+        LOCK_WAITS.fetch_add(sched.futex_stats().0, std::sync::atomic::Ordering::Relaxed);
         Ok((outs, sched.summary()))
     })?;
     let (outs, (trace, yields, switches, switch_labels, overrun)) = match run {
@@ -1369,6 +1372,10 @@ pub fn run_shard(ctx: &ShardCtx, rep: &mut Report) {
                                 rep.notes.push("C12c: a worker that was given the processor never reached a yield point because the library held a lock across a yield point of a parked worker; the scheduler took the processor back (results are still compared, but those interleavings are no longer fully under its control)".into());
                             }
                         }
+                        // every lock the library takes is under the simulated futex; a wait happens
+                        // only if the library holds a lock across a yield point (never on HEAD)
+                        rep.count("fault.lock_wait.configured");
+                        rep.add("fault.lock_wait.fired", LOCK_WAITS.swap(0, std::sync::atomic::Ordering::Relaxed));
                         rep.count("fault.sched.configured");
                         if st.switches > 0 {
                             rep.count("fault.sched.fired");
